@@ -186,6 +186,20 @@ def roundtrip_task(logic, depth, cap, seed):
 
 
 
+def roundtrip_history_task(order, depth, cap, seed):
+    """native exploration of HISTORIES: the parsers of several logics used one after the other in ONE interpreter, over the same atom
+    names (parser-level state shared between logics - caches, interning tables - shows only then); two passes over `order`"""
+    out = dict(order=list(order), formulas=0, problems=[])
+    for rnd in (0, 1):
+        for lg in order:
+            r = roundtrip_task(lg, depth, cap, '%s/%d/%s' % (seed, rnd, lg))
+            out['formulas'] += r['formulas']
+            out['problems'] += [(lg, a, b) for (a, b) in r['problems'][:3]]
+            if out['problems']:
+                return out
+    return out
+
+
 COLLISION_REPLAY = """
 import importlib
 logic = %(logic)r
@@ -305,6 +319,27 @@ def run_c09(rep, tier):
             body = ('import importlib\nlogic = %r\nM = importlib.import_module("pyModelChecking." + ("CTLS" if logic == "CTL" else logic))\ns = %r\n'
                     'try:\n    h = M.Parser()(s); print("parsed back:", h)\nexcept Exception as e:\n    print("parser raised", type(e).__name__)\nprint("VIOLATION of C09: %s")\nsys.exit(1)\n' % (t[0], pr[1], pr[0].replace('"', "'")))
             rep.violation('%s: %s: %s' % (key, pr[0], pr[1]), write_replay('C09', body))
+    # histories: the four parsers used one after the other in one interpreter (every rotation of the logic order, and its reverse)
+    lgs = ['PL', 'LTL', 'CTLS', 'CTL']
+    orders = [tuple(lgs[i:] + lgs[:i]) for i in range(4)] + [tuple(reversed(lgs[i:] + lgs[:i])) for i in range(4)]
+    for t, st, out, secs in pmap(roundtrip_history_task, [(o, 2, 150 if tier == 'quick' else 1000, 7) for o in orders]):
+        key = 'native round trip, parsers used in the order %s (twice) in one interpreter' % '>'.join(t[0])
+        if st != 'ok':
+            rep.inconclusive('%s: %s' % (key, out))
+            continue
+        nat += out['formulas']
+        rep.obligation(key, 'unsat' if not out['problems'] else 'sat', 0, 0, dict(exploration='Parser()(str(f)) compared structurally with f, several logics in one process', order=list(t[0]),
+                                                                                  formulas=out['formulas'], problems=out['problems'][:3]))
+        if out['problems']:
+            from .common import ROOT
+            body = ('sys.path.insert(0, %r)\nfrom verif import p_syntax\nout = p_syntax.roundtrip_history_task(%r, %r, %r, %r)\nprint("parsers used in the order", out["order"], "in one interpreter;", out["formulas"], "formulas")\n'
+                    'if out["problems"]:\n    print("VIOLATION of C09:", out["problems"][0]); sys.exit(1)\nprint("no violation on this history")\n' % (ROOT, t[0], t[1], t[2], t[3]))
+            path = write_replay('C09', body)
+            ok, txt = run_replay(path)
+            if ok:
+                rep.violation('%s: %s' % (key, out['problems'][0]), path)
+            else:
+                rep.inconclusive('%s: problem %s does not reproduce in a fresh interpreter: %s' % (key, out['problems'][0], txt[-200:]))
     rep.cov['bounds'].update(L_unambiguity=L, L_acceptance=4 if tier == 'quick' else 5, native_formulas=nat, atom_pool=ATOM_POOL)
     rep.cov['programs'] = nat
     rep.cov['traces_validated_against_impl'] += nat
